@@ -12,6 +12,7 @@ vars == <<ds, opt, X, heap, fcache, rcache, nid, returned, last, hist>>
 
 \* the request menu: single and multiple fields, every input, whole-array / pooled / sliced
 MenuFields == IF Family = "C18Ens" THEN {<<"e0">>, <<"e1">>, <<"obs", "e2">>, <<"fcst">>}
+              ELSE IF Family = "C18Derived" THEN {<<"p16000">>, <<"obs", "p16000">>, <<"p26000">>, <<"e0">>}
               ELSE IF Family = "C18Extra" THEN {<<"obs">>, <<"q0.005">>, <<"q0.01">>, <<"obs", "q0.01">>, <<"obs", "q0.005">>, <<"fcst", "Tmax">>}
               ELSE {<<"obs">>, <<"fcst">>, <<"obs", "fcst">>}
 \* MaxLen >= 99 means "no bound on the length of the history" (configurations *_Unbounded, explored under VIEW CanonicalView): the menu
